@@ -232,7 +232,8 @@ CHECKS = {
          "CRC-protected in-memory serial line (own CRC-16 0x8810/0xFFFF and lexer) and a TCP port pair; schedules in child processes: "
          "write sizes 1..200 000, 0-3 CRCFAULTs, BUFFER sequences incl. never-zero, ARQ frames 1..65 530 bytes with reader buffers "
          "1..70 000, FEC/IDF/ERR frames and BUSY/NEWSTATE/PTT events interleaved, dial/listen, refusals, malformed control lines and "
-         "frames; ArdopPropsTrace.tla judges stream equality, host framing, retransmission, Flush, PTT order, DISCONNECT and crashes.",
+         "frames; ArdopPropsTrace.tla judges stream equality, host framing, retransmission, Flush, PTT order, DISCONNECT and crashes; "
+         "ArdopTrace.tla validates the TNC side event log of every outbound schedule against Ardop.tla (silent steps inferred).",
     note="Internal goroutine interleavings of the library are not controlled. The model also exhibits a schedule on which Flush never "
          "returns (BUFFER n and BUFFER 0 processed before Write takes the lock): recorded as an observation, outside C14's wording.",
     technique="TLA+ transmit-side model (design) + simulated TNC schedules on real code judged by TLC trace validation",
